@@ -1,4 +1,4 @@
-import SgVerif.C11.Lemmas
+import SgVerif.C11.Run4
 /-
 C11 — Actor lifecycle semantics.  Theorems over the model of Model.lean (a labelled transition system whose labels are
 the observable lines of a run; `step s l` is the list of states the line `l` may lead to, `[]` = not allowed).
@@ -90,24 +90,6 @@ theorem on_exit_wrong_order_refused (s s' : Sys) (a g : Nat) (t : Rat) (x0 : Act
   rw [this]; simp
 
 /-! ### time: kill timers, suspension, daemons -/
-
-theorem step_op_timeOk (s : Sys) (a i : Nat) (t : Rat) (sk : Bool) (h : step s (.op a i t sk) ≠ []) :
-    s.timeOk t = true := by
-  by_cases hc : s.timeOk t = true
-  · exact hc
-  · exfalso; apply h; simp [step, hc]
-
-theorem step_joined_timeOk (s : Sys) (a i : Nat) (t : Rat) (h : step s (.joined a i t) ≠ []) :
-    s.timeOk t = true := by
-  by_cases hc : s.timeOk t = true
-  · exact hc
-  · exfalso; apply h; simp [step, hc]
-
-theorem step_exitCb_timeOk (s : Sys) (a g : Nat) (t : Rat) (h : step s (.exitCb a g t) ≠ []) :
-    s.timeOk t = true := by
-  by_cases hc : s.timeOk t = true
-  · exact hc
-  · exfalso; apply h; simp [step, hc]
 
 /-- **kill time (one-step form).**  While an actor with kill time `T` is live, no line of any actor can carry a date
 later than `T`: the clock cannot pass `T` unless the actor dies — and the only thing the model lets it do at `T` when
